@@ -7,6 +7,7 @@ CONSTANTS
 INIT Init
 NEXT Next
 CHECK_DEADLOCK FALSE
+PROPERTY Prop_Frame
 INVARIANT Inv_TruncCertificate
 INVARIANT Inv_TruncAdditive
 INVARIANT Inv_Export
